@@ -374,4 +374,91 @@ example : H15 true [.root, .normal ['a'], .parent, .normal ['b']] = true ∧
     normalize true [.root, .normal ['a'], .parent, .normal ['b']] = [.root, .normal ['b']] := by
   decide
 
+/-! ## convert_require keeps the target -/
+
+/-- Full statement: whenever a call resolves under the current mode and is rewritten, the new
+argument resolves under the target mode to a path leading to the same place. -/
+def convert_keeps_target_full : Prop :=
+  ∀ (current target : Mode) (proj : Path) (isFile : Path → Bool) (req source found : Path)
+    (arg : List Char),
+    current.findCall proj isFile req source = .ok found →
+    convertRequire current target proj isFile req source = some arg →
+    ∃ found', target.findCall proj isFile (components arg) source = .ok found' ∧
+      ∀ cwd, resolve cwd found' = resolve cwd found
+
+/-- False (F28): `pkg/m` with `pkg → ./lib`, required from `src/main.lua`, is found as
+`./lib/m.lua`; `generate_require` takes the leading `.` for "relative to the requiring file"
+and writes `./lib/m`, which the luau mode looks up below `src/`. -/
+theorem convert_keeps_target_full_false : ¬ convert_keeps_target_full := by
+  intro h
+  let cur : Mode := .path ⟨['i', 'n', 'i', 't'], [(['p', 'k', 'g'], [.cur, .normal ['l', 'i', 'b']])], none⟩
+  let tgt : Mode := .luau ⟨[], none⟩
+  let fs : List Path := [[.normal ['l', 'i', 'b'], .normal ['m', '.', 'l', 'u', 'a']]]
+  let req : Path := [.normal ['p', 'k', 'g'], .normal ['m']]
+  let src : Path := [.normal ['s', 'r', 'c'], .normal ['m', 'a', 'i', 'n', '.', 'l', 'u', 'a']]
+  obtain ⟨f', hf, _⟩ := h cur tgt [.cur] (memIsFile fs) req src
+    [.cur, .normal ['l', 'i', 'b'], .normal ['m', '.', 'l', 'u', 'a']] ['.', '/', 'l', 'i', 'b', '/', 'm']
+    (by rfl) (by rfl)
+  have : tgt.findCall [.cur] (memIsFile fs) (components ['.', '/', 'l', 'i', 'b', '/', 'm']) src =
+      .error (.notFound [.normal ['s', 'r', 'c'], .normal ['l', 'i', 'b'], .normal ['m']]) := by rfl
+  rw [this] at hf
+  cases hf
+
+/-- Partial (the core of the non-defective region): when the found file and the requiring
+file are plain paths (names only — in particular `HConv` holds) and the requiring file lies
+in a named directory `q`, `get_relative_path` succeeds and the relative path it returns
+leads, from `q`, exactly to the found file. Together with `path_head_relative` /
+`luau_head_relative` (the head of a relative require is walked from `q`) and
+`find_is_first_existing` this is the proved part of "the converted require reaches the same
+file"; dropping the extension / module-folder name and the candidate order on re-resolution
+(F29) are covered by the tie only. -/
+theorem convert_relative_denotes_partial (found q : Path) (s : Name)
+    (hf : isPlain found = true) (hq : isPlain q = true) (hne : q ≠ []) :
+    ∃ rel, getRelativePath found (q ++ [.normal s]) = some rel ∧
+      ∀ cwd, resolve (resolve cwd q) rel = resolve cwd found := by
+  obtain ⟨r, h1, h2, h3⟩ := diffLoop_plain q found hq hf
+  have hsp : relParent (q ++ [.normal s]) = q := by
+    rw [relParent_snoc_name]; simp [hne]
+  have hrootf : hasRoot found = false := by
+    cases found with
+    | nil => rfl
+    | cons c cs => cases c <;> simp_all [isPlain, hasRoot]
+  have hrootq : hasRoot q = false := by
+    cases q with
+    | nil => rfl
+    | cons c cs => cases c <;> simp_all [isPlain, hasRoot]
+  have hr : reparse r = r := reparse_noRootCur r h2
+  have hnr : noRoot r = true := by
+    simp only [noRoot, List.all_eq_true]
+    intro c hc
+    have := (List.all_eq_true.mp h2) c hc
+    simp at this
+    simpa using this.1
+  refine ⟨normalize true (if !startsDot r then push [.cur] r else r), ?_, ?_⟩
+  · simp [getRelativePath, hsp, hrootf, hrootq, diffPaths, h1, hr]
+  · intro cwd
+    have key : ∀ (x : Path), noRoot x = true → resolve (resolve cwd q) (normalize true x) = resolve (resolve cwd q) x :=
+      fun x hx => normalize_lexical_partial true _ x (rootPopFree_of_noRoot true x [] rfl hx)
+    by_cases hd : startsDot r = true
+    · simp only [hd, Bool.not_true, Bool.false_eq_true, if_false]
+      rw [key r hnr, h3]
+    · have hd' : startsDot r = false := by simpa using hd
+      have hpr : hasRoot r = false := by
+        cases r with
+        | nil => rfl
+        | cons c cs =>
+          cases c <;> simp_all [hasRoot, noRoot]
+      have hpush : push [.cur] r = .cur :: r := by
+        have : dropCur r = r := dropCur_noRootCur r h2
+        simp [push, hpr, reparse, this]
+      simp only [hd', Bool.not_false, if_true]
+      rw [hpush, key (.cur :: r) (by simpa [noRoot] using hnr)]
+      simpa [resolve, resolveStep] using h3 cwd
+
+example : isPlain [.normal ['l', 'i', 'b'], .normal ['m', '.', 'l', 'u', 'a']] = true ∧
+    isPlain [.normal ['s', 'r', 'c']] = true ∧
+    getRelativePath [.normal ['l', 'i', 'b'], .normal ['m', '.', 'l', 'u', 'a']]
+      [.normal ['s', 'r', 'c'], .normal ['m', 'a', 'i', 'n', '.', 'l', 'u', 'a']] =
+      some [.parent, .normal ['l', 'i', 'b'], .normal ['m', '.', 'l', 'u', 'a']] := by decide
+
 end DarkluaModel.C15
